@@ -97,6 +97,10 @@ def _rows(outs):
 def _norm(t):
     """min/max with sorted, flattened arguments; everything else structurally."""
     op, args = destruct(t)
+    if op in ("min", "max") and len(args) == 1 and destruct(args[0])[0] in ("list", "tuple") and destruct(args[0])[1]:
+        args = destruct(args[0])[1]  # min([a, b]) is min(a, b)
+        if len(args) == 1:
+            return _norm(args[0])
     if op in ("min", "max"):
         flat = []
         for a in args:
@@ -190,7 +194,16 @@ def run(ctx):
     outs, it = run_function(m, ff, TRule(), TIMEOUT, inline=frozenset(set(helper_closure(m, [ff], stop=STOP19)) - {ff.qual}))
     frow = [o for o in _rows(outs) if o.kind == "return"]
     pf = "p:" + ff.params()[0]
-    ok = bool(frow) and all(term_of(o.val) == T("new:Timeout", f"connect={pf}", f"read={pf}") for o in frow)
+    def _ff_ok(t_):
+        o_, a_ = destruct(t_)
+        if o_ != "new:Timeout":
+            return False
+        from ..rows import bind as _b
+        b_ = _b(init.params(), list(a_))
+        dflt = {k_: (repr(v_.value) if isinstance(v_, ast.Constant) else None) for k_, v_ in init.defaults().items()}
+        rest = {k_: v_ for k_, v_ in b_.items() if k_ not in ("connect", "read") and dflt.get(k_) != v_}
+        return b_.get("connect") == pf and b_.get("read") == pf and not rest
+    ok = bool(frow) and all(_ff_ok(term_of(o.val)) for o in frow)
     ctx.ob(R1, ff.qual, "from_float builds a new Timeout(read=t, connect=t)", ok, "" if ok else str([term_of(o.val) for o in frow]))
 
     # ------------------------------------------------------------------ R2 validation
